@@ -7,7 +7,7 @@ import ast
 from ..cfg import CFG
 from ..model import AnalysisError, chain, unparse
 from ..report import RuleResult
-from ._c11_sem import Facts, call_name, closer, cm_released_args, falsy_result, handlers_around, node_calls, node_of, path_text, protected, reach3, truthy_source
+from ._c11_sem import Facts, call_name, closer, cm_released_args, falsy_result, field_resets, handlers_around, node_calls, node_of, path_text, protected, reach3, resolve_callee, truthy_source
 
 
 def _is_h5py_file(p, mod, ch) -> bool:
@@ -346,4 +346,70 @@ def rule_gate(ctx) -> RuleResult:
     return res
 
 
-RULES = [rule_pair, rule_exit, rule_gate]
+def _registries(ctx) -> list:
+    """The uid registries of the workspace, by what they are: fields bound to an empty mapping by Workspace.__init__ that
+    Workspace.register() files entities into (named there as `self.<field>` or, table-driven, by the field's name)."""
+    init = ctx.view("Workspace.__init__")
+    sn = init.self_name or "self"
+    made = set()
+    for fields in field_resets(CFG(init.node), init.node, sn).values():
+        made |= fields
+    named = set()
+    seen = set()
+
+    def mentions(fi, depth):
+        """fields of self / field names that register() refers to, helpers it hands the choice of the registry to included"""
+        if id(fi.node) in seen or depth > 2:
+            return
+        seen.add(id(fi.node))
+        v = ctx.view(fi)
+        rsn = v.self_name or "self"
+        for x in ast.walk(v.node):
+            if isinstance(x, ast.Attribute) and isinstance(x.value, ast.Name) and x.value.id == rsn:
+                named.add(x.attr)
+            elif isinstance(x, ast.Constant) and isinstance(x.value, str):
+                named.add(x.value)
+            elif isinstance(x, ast.Call):
+                callee = resolve_callee(ctx.p, v, x)
+                if callee is not None and callee.cls is not None and callee.cls is fi.cls:
+                    mentions(callee, depth + 1)
+
+    mentions(ctx.p.func("Workspace.register"), 0)
+    return sorted(made & named)
+
+
+def rule_reopen(ctx) -> RuleResult:
+    res = RuleResult(
+        "C11.REOPEN",
+        "C11",
+        "re-opening restores access to the content of the file, not of the previous session: on every normal path of "
+        "Workspace.open() that binds a new handle, every uid registry that register() files entities into is re-bound to a "
+        "fresh empty mapping (the tree loaded afterwards is built from the file, not wired to objects cached before the close)",
+        floor=3,
+    )
+    regs = _registries(ctx)
+    if len(regs) < 2:
+        raise AnalysisError(f"Workspace: uid registries (fields of __init__ that register() fills) not found: {regs}")
+    op = ctx.view("Workspace.open")
+    sn = op.self_name or "self"
+    g = CFG(op.node)
+    resets = field_resets(g, op.node, sn)
+    stores = [n for n in g.nodes if n.kind == "stmt" and isinstance(n.ast, (ast.Assign, ast.AnnAssign)) and _is_gateway(op, _target(n.ast))]
+    closed = Facts(op.node, truthy={f"{sn}._geoh5": False})
+    for x in regs:
+        avoid = lambda n, x=x: x in resets.get(n, ())  # noqa: E731
+        if stores:
+            before = reach3(g, [g.entry], avoid=avoid)
+            ok = not any(s_ in before and g.exit in reach3(g, [s_], avoid=avoid) for s_ in stores)
+        else:
+            # the handle is bound somewhere the view does not show: every normal path of open() on a closed workspace
+            ok = g.exit not in reach3(g, [g.entry], closed, avoid=avoid)
+        res.inst(f"Workspace.open: registry {x} reset on every path that binds a new handle", nontrivial=True, ok=ok)
+        if not ok:
+            res.find("Workspace", "open", f"registry {x} is not reset on re-open", op.where,
+                     f"after close() and open() the tree is reloaded while {x} still holds the previous session's objects: lookups by uid return "
+                     "stale objects instead of what is in the file (and the next write of such an object overwrites the file content)")
+    return res
+
+
+RULES = [rule_pair, rule_exit, rule_gate, rule_reopen]
